@@ -41,6 +41,11 @@ class C03(Monitor):
         s, prev, E = ctx.s, ctx.prev, ctx.E
         fares = collections.defaultdict(float)
         paid = collections.defaultdict(float)
+        for rid in ctx.injected_now:  # added by a co-simulation client through add_request_safe: admitted without a file event
+            if rid in self.state:
+                ctx.violate("C03", "admitted-twice", f"request {rid} injected although the ledger has it as {self.state[rid]}", request=rid)
+            self.state[rid] = "waiting"
+            ctx.count("c03_injected")
         for r in E:
             t = r.report_type.name
             d = r.report
@@ -179,6 +184,8 @@ class C04(Monitor):
             if p is None or mech is None:
                 continue
             cap = capacity_of(mech)
+            if v.id not in self.init:  # joined mid-run: the ledger starts from what it carried when first seen
+                self.init[v.id] = {et: p.energy[et] - p.energy_gained[et] + p.energy_expended[et] for et in p.energy}
             for et, e in v.energy.items():
                 ctx.count("c04_vehicle_steps")
                 if e < 0 or e > cap + 1e-9:
